@@ -3,6 +3,20 @@
 
 use std::collections::BTreeMap;
 
+/// A decoration is None, one predicate, or several predicates joined by " && " (= several #[cfg] attributes on
+/// the item, in that order; the item is enabled iff all of them are true).
+pub fn cfg_on(c: &Option<String>, truth: &dyn Fn(&str) -> bool) -> bool {
+    c.as_ref().map(|s| s.split(" && ").all(|p| truth(p))).unwrap_or(true)
+}
+
+pub fn cfg_attrs(c: &Option<String>) -> String {
+    c.as_ref().map(|s| s.split(" && ").map(|p| format!("#[cfg({})] ", p)).collect::<String>()).unwrap_or_default()
+}
+
+pub fn cfg_preds(c: &Option<String>) -> Vec<String> {
+    c.as_ref().map(|s| s.split(" && ").map(|p| p.to_string()).collect()).unwrap_or_default()
+}
+
 #[derive(Clone, Debug, PartialEq, Eq)]
 pub struct RComp {
     pub name: String,
@@ -56,7 +70,7 @@ fn next_id(explicit: Option<u8>, prev: Option<u8>, name: &str, used: &mut BTreeM
 
 /// The enum-discriminant rule over ENABLED items only, first error in declaration order.
 pub fn assign_ids(archs: &[RArch], truth: &dyn Fn(&str) -> bool) -> Result<WorldIds, IdErr> {
-    let on = |c: &Option<String>| c.as_ref().map(|p| truth(p)).unwrap_or(true);
+    let on = |c: &Option<String>| cfg_on(c, truth);
     let mut out = Vec::new();
     let mut used = BTreeMap::new();
     let mut prev = None;
@@ -79,18 +93,14 @@ pub fn assign_ids(archs: &[RArch], truth: &dyn Fn(&str) -> bool) -> Result<World
 pub fn decl_text(world_name: &str, archs: &[RArch]) -> String {
     let mut s = format!("ecs_name!({});\n", world_name);
     for a in archs {
-        if let Some(p) = &a.cfg {
-            s.push_str(&format!("#[cfg({})] ", p));
-        }
+        s.push_str(&cfg_attrs(&a.cfg));
         if let Some(id) = a.id {
             s.push_str(&format!("#[archetype_id({})] ", id));
         }
         s.push_str(&format!("ecs_archetype!({}", a.name));
         for c in &a.comps {
             s.push_str(", ");
-            if let Some(p) = &c.cfg {
-                s.push_str(&format!("#[cfg({})] ", p));
-            }
+            s.push_str(&cfg_attrs(&c.cfg));
             if let Some(id) = c.id {
                 s.push_str(&format!("#[component_id({})] ", id));
             }
@@ -136,7 +146,7 @@ impl Param {
             PType::DirectWild => "EntityDirect<_>".into(),
             PType::DirectAny => "EntityDirectAny".into(),
         };
-        format!("{}{}: &{}{}", self.cfg.as_ref().map(|p| format!("#[cfg({})] ", p)).unwrap_or_default(), name, if self.is_mut { "mut " } else { "" }, ty)
+        format!("{}{}: &{}{}", cfg_attrs(&self.cfg), name, if self.is_mut { "mut " } else { "" }, ty)
     }
 }
 
@@ -161,7 +171,7 @@ pub fn match_query(world: &WorldIds, params: &[Param], truth: &dyn Fn(&str) -> b
     if params.iter().any(|p| matches!(p.ty, PType::OneOf(_)) && p.cfg.is_some()) {
         return QExpect::CfgOnOneOf;
     }
-    let enabled: Vec<&Param> = params.iter().filter(|p| p.cfg.as_ref().map(|c| truth(c)).unwrap_or(true)).collect();
+    let enabled: Vec<&Param> = params.iter().filter(|p| cfg_on(&p.cfg, truth)).collect();
     // a OneOf that hits two columns of SOME archetype of the world makes the query ill-formed
     for (aname, _, comps) in &world.archs {
         for p in &enabled {
